@@ -264,7 +264,7 @@ class Script:
         return "o%d.out" % self.nfile
 
     # --- running -----------------------------------------------------------------------------------------------
-    def tool_run(self, argv, timeout=60):
+    def tool_run(self, argv, timeout=20):
         try:
             p = subprocess.run([self.tool] + argv, cwd=self.dt, capture_output=True, timeout=timeout)
             return p.returncode, p.stdout.decode(errors="replace"), p.stderr.decode(errors="replace")
@@ -273,7 +273,7 @@ class Script:
 
     def probe(self, gf="g.tsg"):
         """read-only steering probe of the tool's grid file (not part of the script)"""
-        rc, so, se = self.tool_run(["-summary", gf])
+        rc, so, se = self.tool_run(["-summary", gf], timeout=8)
         st = {"ok": rc == 0}
         if rc != 0:
             return st
@@ -333,8 +333,14 @@ def gen_points(r, dims, n, lo=-1.0, hi=1.0):
     return [[r.choice([0.0, 0.5, -0.25, lo, hi, r.uniform(lo, hi), r.uniform(lo, hi)]) for _ in range(dims)] for _ in range(n)]
 
 
-def limits_file(s, r, dims):
-    return s.newfile([[float(r.choice([1, 2, 3, 4, 2, 3])) for _ in range(dims)]], "lim")
+def limits_file(s, r, dims, local=False):
+    """level limits; for Global/Sequence/Fourier grids one direction is left practically unlimited, because anisotropic
+    refinement does not terminate once every direction is saturated (defect F4 of C08, library, not the tool)"""
+    if local:
+        return s.newfile([[float(r.choice([1, 2, 3, 4, 2, 3])) for _ in range(dims)]], "lim")
+    row = [float(r.choice([1, 2, 3, 30])) for _ in range(dims)]
+    row[r.randrange(dims)] = 30.0
+    return s.newfile([row], "lim")
 
 
 def make_invocation(s, r, kind=None, gf="g.tsg", dims=None, outs=None, allow_zero_out=False):
@@ -405,7 +411,7 @@ def make_invocation(s, r, kind=None, gf="g.tsg", dims=None, outs=None, allow_zer
     if r.random() < 0.1 and info.get("rule") not in UNBOUNDED:
         opts += [("ct", "asin"), ("-conformalfile", s.newfile([[float(r.choice([0, 2, 4, 6])) for _ in range(dims)]], "cm"))]
     if r.random() < 0.25:
-        opts.append(("lf", limits_file(s, r, dims)))
+        opts.append(("lf", limits_file(s, r, dims, local=kind in ("localp", "wavelet"))))
     opts.append(("gf", gf))
     so, of = sink_opts(s, r, force=False)
     opts += so
@@ -515,8 +521,8 @@ def mutate(s, r, st, dom):
         cands.append("setcoefficients")
     if st["needed"] > 0 and st["loaded"] > 0:
         cands += ["cancelrefine", "mergerefine"]
-    if outs > 0 and kind != "fourier-skip":
-        cands += ["getconstructpnts"]
+    if outs > 0:
+        cands += ["getconstructpnts", "loadconstructed"]
         if s.constr:
             cands += ["loadconstructed", "loadconstructed", "cancelrefine"]
     if r.random() < 0.05:
@@ -552,7 +558,7 @@ def mutate(s, r, st, dom):
         if r.random() < 0.4:
             opts.append(("rout", r.choice([-1] + list(range(outs)))))
         if r.random() < 0.3:
-            opts.append(("lf", limits_file(s, r, dims)))
+            opts.append(("lf", limits_file(s, r, dims, local=kind in ("localp", "wavelet"))))
     elif cmd == "setcoefficients":
         c = s.probe_matrix("-getcoefficients")
         if c is None:
@@ -576,13 +582,16 @@ def mutate(s, r, st, dom):
             elif kind == "global" and outs > 1 or r.random() < 0.3:
                 opts.append(("rout", r.randrange(outs)))
         if r.random() < 0.3:
-            opts.append(("lf", limits_file(s, r, dims)))
+            opts.append(("lf", limits_file(s, r, dims, local=kind in ("localp", "wavelet"))))
         so, of = sink_opts(s, r, force=True)
         opts += so
         asc = False
     elif cmd == "loadconstructed":
         c = s.last_candidates
-        if not c:
+        if not s.constr or not c or c[0] == 0:
+            # not (yet) in construction mode, or no candidates known: use points of the grid itself
+            c = s.probe_matrix("-getneeded") if st["needed"] > 0 else s.probe_matrix("-getpoints")
+        if not c or c[0] == 0:
             return None
         nr, nc, v, _ = c
         take = list(range(nr))
@@ -720,7 +729,8 @@ def gen_exotic(s, r):
         s.do("getquadrature", [("gf", "g.tsg"), ("print", None)])
 
 
-# fixed witness scripts of the defects observed on the unchanged tree (run first on every run)
+# witness scripts of the defects observed on the unchanged tree; they live in corpus/C16/*.json (run first on every
+# run); this function only regenerates those files:  python3 props/C16.py --export-corpus
 def witness_scripts():
     W = []
     W.append(("w-F11-makequadrature-localp", [["-makequadrature", "-dimensions", "1", "-depth", "2", "-onedim", "localp", "-order", "1",
@@ -762,13 +772,19 @@ def witness_scripts():
                                             ["-setcoefficients", "-gridfile", "g.tsg", "-valsfile", "c.txt"],
                                             ["-getcoefficients", "-gridfile", "g.tsg", "-outputfile", "c.out"]],
               {"c.txt": [[1.0, 0.0], [0.5, 0.25], [0.5, -0.25]]}, {"c.out": 2}))
+    W.append(("w-zero-column-print", [mk1, ["-getconstructpnts", "-gridfile", "g.tsg", "-tolerance", "0.0625", "-reftype", "classic",
+                                             "-outputfile", "c.out"],
+                                      ["-evalhierarchyd", "-gridfile", "g.tsg", "-xfile", "x.txt", "-print"]],
+              {"x.txt": [[0.25], [0.5]]}, {}))
     return W
 
 
 # ---------------------------------------------------------------------------------------------------------------
 # comparison
-def known_key(s_tags, inv, what, api_status):
-    """stable keys of the defect classes observed on the unchanged tree (see fixes/C16-findings.txt)"""
+def known_key(s_tags, inv, what, api_status, tables):
+    """stable keys of the defect classes observed on the unchanged tree (see fixes/C16-findings.txt).  A key is given
+    only when the regenerated tables still show the defective source shape (where the defect is visible there) AND the
+    symptom is the one of that defect, so that a different failure of the same command is not hidden behind the key."""
     argv, cmd, err = inv["argv"], inv["cmd"], inv["err"]
     has = lambda *names: any(a in argv for a in names)
 
@@ -778,33 +794,34 @@ def known_key(s_tags, inv, what, api_status):
                 return argv[argv.index(n) + 1]
         return None
     rule = val("-1d", "-onedim")
-    if cmd == "makequadrature" and rule in LOCAL_RULES:
+    if cmd == "makequadrature" and rule in LOCAL_RULES and tables.get("mq_localp_defect") and \
+            (what in ("output", "stdout") or (what == "status" and "makeWaveletGrid" in err)):
         return "makequadrature-localp-rule"
-    if cmd in ("refinesurp", "refine") and has("-vf", "-valsfile"):
+    if cmd in ("refinesurp", "refine") and has("-vf", "-valsfile") and what == "status":
         if "number of weights must match the number of outputs" in err or "there must be one weight per output" in err:
             return "refinesurp-scale-width"
-        if "incorrect size for scale_correction" in err:
+        if "incorrect size for scale_correction" in err and not tables.get("vector_overload_fixed"):
             return "refinesurp-scale-library-size"
-    for o in ("-alpha", "-beta", "-tol", "-tolerance", "-shift"):
-        v = val(o)
-        if v is not None:
-            try:
-                if struct.unpack("f", struct.pack("f", float(v)))[0] != float(v):
-                    return "float32-option-precision"
-            except (ValueError, OverflowError):
-                pass
-    if cmd.startswith("make") and cmd not in ("makequadrature", "makeexoquad") and val("-out", "-outputs") == "0":
+    if tables.get("float32_options") and what in ("grid", "output", "stdout"):
+        for o in tables["float32_options"]:
+            v = val(o)
+            if v is not None:
+                try:
+                    if struct.unpack("f", struct.pack("f", float(v)))[0] != float(v):
+                        return "float32-option-precision"
+                except (ValueError, OverflowError):
+                    pass
+    if cmd.startswith("make") and cmd not in ("makequadrature", "makeexoquad") and val("-out", "-outputs") == "0" \
+            and tables.get("positive_outputs_required") == "true" and what == "status" and "could be zero" in err:
         return "make-outputs-zero-rejected"
-    if cmd == "using-construct" and what == "grid":
+    if cmd == "using-construct" and what == "grid" and "-using-construct" in tables.get("const_list_deviations", []):
         return "using-construct-rewrites-gridfile"
-    if cmd == "refine" and "refine-fourier" in s_tags:
+    if cmd == "refine" and "refine-fourier" in s_tags and what == "status" and "called for a Fourier grid" in err:
         return "refine-fourier-dispatch"
-    if cmd == "setcoefficients" and "setcoeff-fourier" in s_tags:
+    if cmd == "setcoefficients" and "setcoeff-fourier" in s_tags and what == "grid":
         return "setcoefficients-fourier-layout"
     if inv.get("zero_cols") and inv.get("rc") in (-11, -6) and what == "status":
         return "zero-column-matrix-output-crash"
-    if cmd == "makeexoquad" and not has("-symm", "-symmetric"):
-        return "makeexoquad-symmetric-uninitialised"
     return None
 
 
@@ -815,14 +832,24 @@ def compare_script(sc, api_status, runner, counters):
         ast = api_status.get(i, "missing")
         tool_ok = inv["rc"] == 0
         api_ok = ast == "ok"
+        if ast.startswith("crash timeout") or (inv["rc"] == -9 and not api_ok):
+            # the library does not return (both sides call the same code; e.g. anisotropic refinement with saturated level
+            # limits): not a difference between the tool and the API; stop judging this script and count it
+            counters["timeouts"] += 1
+            return None
         if tool_ok != api_ok:
             return i, "status", "tool exit code %s (%s) but the library call sequence gives: %s" % (
                 inv["rc"], (inv["err"].strip().split("\n") or [""])[-1][:160], ast[:200])
-        # grid files
+        # grid files (an invocation refused by both sides may still have rewritten the tool's file, e.g. after a failed
+        # size test of a matrix; such scripts are outside the property: stop comparing, count, no violation)
+        both_reject = (not tool_ok) and (not api_ok)
         for g in sc.snaps:
             a = os.path.join(sc.dt, g + ".tool%d" % i)
             b = os.path.join(sc.da, g + ".api%d" % i)
             ea, eb = os.path.exists(a), os.path.exists(b)
+            if both_reject and (ea != eb or (ea and open(a, "rb").read() != open(b, "rb").read())):
+                counters["refused_with_side_effect"] += 1
+                return None
             if ea != eb:
                 return i, "grid", "grid file %s exists after the invocation: tool=%s api=%s" % (g, ea, eb)
             if not ea:
@@ -886,7 +913,7 @@ def run_api(sc, drv, runner, base):
             fh.write(" ".join(inv["argv"]) + "\n")
     status, first, rc, se = {}, 0, 0, ""
     while first < len(sc.inv):
-        rc, so, se = vlib.run([drv, runner, sf, sc.da, str(first)], timeout=300)
+        rc, so, se = vlib.run([drv, runner, sf, sc.da, str(first)], timeout=120)
         for line in so.split("\n"):
             m = re.match(r"inv (\d+) (.*)", line)
             if m:
@@ -912,6 +939,8 @@ def fixed_script(sid, invs, files, tool, base, r):
     sc.snaps = sorted({a[a.index(k) + 1] for a in invs for k in ("-gridfile", "-gf", "-wf", "-weightfile") if k in a and a.index(k) + 1 < len(a)}
                       | {a[1] for a in invs if len(a) == 2 and a[0] in ("-s", "-summary", "-using-construct")}) or ["g.tsg"]
     for name, rows in files.items():
+        if isinstance(rows, dict) and "rows" not in rows:
+            continue       # a copy of a tool output (custom rule file of the exotic scripts): cannot be replayed offline
         if isinstance(rows, dict):
             fmt, rows = rows.get("fmt", "ascii"), rows["rows"]
         else:
@@ -953,6 +982,8 @@ FLAVORS = (["any"] * 10 + ["global", "sequence", "localp", "wavelet", "fourier"]
 
 
 def one_script(idx, seed, tool, drv, runner, replay_obj=None, witness=None):
+    import time
+    t0 = time.time()
     r = vlib.rng(seed, PID, idx)
     base = os.path.join(WORK, "s%s" % idx)
     os.makedirs(base, exist_ok=True)
@@ -962,13 +993,13 @@ def one_script(idx, seed, tool, drv, runner, replay_obj=None, witness=None):
         flavor = "witness"
     elif replay_obj is not None:
         sc = fixed_script("replay", replay_obj["script"], replay_obj.get("files", {}), tool, base, r)
-        flavor = "replay"
+        flavor = "replay" if idx == "replay" else "corpus"
     else:
         flavor = r.choice(FLAVORS)
         sc = Script(idx, r, tool, base)
         gen_script(sc, r, flavor)
     counters = {k: 0 for k in ("grid_files_compared", "output_files_compared", "stdout_compared", "accepted_by_both", "rejected_by_both",
-                               "matrix_files_model_checked")}
+                               "matrix_files_model_checked", "refused_with_side_effect", "timeouts")}
     rc, status, se = run_api(sc, drv, runner, base)
     div = None
     if rc != 0:
@@ -985,7 +1016,7 @@ def one_script(idx, seed, tool, drv, runner, replay_obj=None, witness=None):
             m = read_matrix(c)
             if m and m[0] > 0 and m[1] == 0:
                 zero_cols = True
-    res = {"idx": idx, "zero_cols": zero_cols, "flavor": flavor, "ninv": len(sc.inv), "commands": [i["cmd"] for i in sc.inv], "counters": counters,
+    res = {"idx": idx, "zero_cols": zero_cols, "wall": round(time.time() - t0, 2), "flavor": flavor, "ninv": len(sc.inv), "commands": [i["cmd"] for i in sc.inv], "counters": counters,
            "hash": hashlib.sha256(text.encode()).hexdigest()[:16], "div": div, "api_status": status,
            "record": script_record(sc) if div else None, "tags": sorted(sc.tags), "text": text,
            "inv_meta": [{"cmd": i["cmd"], "argv": i["argv"], "err": i["err"][-400:], "rc": i["rc"]} for i in sc.inv] if div else None,
@@ -1041,6 +1072,33 @@ def alias_checks(res, tool, tables):
     return n
 
 
+def valgrind_exoquad(tool):
+    """-makeexoquad without -symmetric under valgrind: the wrapper must not read an uninitialised flag.
+    returns None (not run), or (clean: bool, script, text)"""
+    if shutil.which("valgrind") is None:
+        return None
+    base = os.path.join(WORK, "vg")
+    shutil.rmtree(base, ignore_errors=True)
+    os.makedirs(base)
+    mk = ["-makelocalpoly", "-dimensions", "1", "-outputs", "1", "-depth", "3", "-order", "1", "-onedim", "localp", "-gridfile", "w.tsg", "-ascii"]
+    subprocess.run([tool] + mk, cwd=base, capture_output=True)
+    p = subprocess.run([tool, "-getneeded", "-gridfile", "w.tsg", "-outputfile", "n.out", "-ascii"], cwd=base, capture_output=True)
+    m = read_matrix(os.path.join(base, "n.out"))
+    if m is None:
+        return None
+    vals = [[math.sin(2.0 * x) + 0.25 * x] for x in m[2]]
+    write_matrix(os.path.join(base, "v.txt"), vals, "ascii")
+    ld = ["-loadvalues", "-gridfile", "w.tsg", "-valsfile", "v.txt", "-ascii"]
+    subprocess.run([tool] + ld, cwd=base, capture_output=True)
+    ex = ["-makeexoquad", "-depth", "2", "-shift", "2", "-weightfile", "w.tsg", "-description", "vg", "-outputfile", "ct.out"]
+    try:
+        q = subprocess.run(["valgrind", "-q", "--error-exitcode=9", tool] + ex, cwd=base, capture_output=True, text=True, timeout=170)
+    except subprocess.TimeoutExpired:
+        return None
+    bad = q.returncode == 9 and "uninitialised" in q.stderr
+    return (not bad, {"script": [mk, ld, ex], "files": {"v.txt": vals}}, q.stderr[:600])
+
+
 def read_tables(runner):
     rc, so, se = vlib.run([runner, "tables"], timeout=60)
     t = {"switches": []}
@@ -1054,6 +1112,18 @@ def read_tables(runner):
             t[w[0]] = w[1:]
         elif len(w) == 2:
             t[w[0]] = w[1]
+    # the source text of the grid-family choice of -makequadrature (data emitted by the translator)
+    try:
+        gen = open(os.path.join(vlib.COQDIR, "gen", "CliTable.v")).read()
+        m = re.search(r'\("([^"]*)", "makeLocalPolynomialGrid"\)', gen)
+        t["mq_localp_defect"] = bool(m) and "isLocalPolynomial(rule)" not in m.group(1)
+    except OSError:
+        t["mq_localp_defect"] = False
+    try:
+        lib = vlib.repo_file("SparseGrids/TasmanianSparseGrid.cpp")
+        t["vector_overload_fixed"] = "size_t nscale = (size_t) base->getNumNeeded();" not in lib
+    except OSError:
+        t["vector_overload_fixed"] = True
     return t
 
 
@@ -1068,6 +1138,10 @@ def run(res, tier, seed, replay_obj=None):
     runner = vlib.ocaml_runner("cli") if ok_ext else None
     tool = build_tool()
     drv = vlib.build_driver("clidrv")
+    stale_model = False
+    if runner is None and os.path.exists(os.path.join(vlib.ROOT, "ocaml", "_build", "cli")):
+        # the regenerated tables no longer fit the model: search for a failing input with the last runner that built
+        runner, stale_model, proof_broken = os.path.join(vlib.ROOT, "ocaml", "_build", "cli"), True, True
     if runner is None:
         res.violation("extraction", "extraction of the model failed (the source has a shape the model does not cover): " + elog[-400:],
                       {"kind": "proof-break", "log": elog[-3000:], "translator": tr_msg}, no_input=True)
@@ -1079,24 +1153,32 @@ def run(res, tier, seed, replay_obj=None):
     if proof_broken:
         nscripts *= 3
     jobs = []
+    alias_only = replay_obj is not None and str(replay_obj.get("key", "")).startswith(("doc-switch", "switch-clash"))
     if replay_obj is not None:
-        jobs.append(("replay", None, replay_obj))
+        if not alias_only and "first_divergence" in replay_obj:
+            jobs.append(("replay", None, replay_obj))
         nscripts = 0
     else:
-        for w in witness_scripts():
-            jobs.append((w[0], w, None))
         if os.path.isdir(CORPUS):
             for f in sorted(os.listdir(CORPUS)):
                 if f.endswith(".json"):
                     c = json.load(open(os.path.join(CORPUS, f)))
-                    jobs.append(("c-" + f[:-5], None, c))
+                    jobs.append((f[:-5], None, c))
     for i in range(nscripts):
         jobs.append((i, None, None))
     results = []
     with cf.ThreadPoolExecutor(min(12, vlib.NCPU)) as ex:
+        vg = ex.submit(valgrind_exoquad, tool) if replay_obj is None else None
         futs = [ex.submit(one_script, j[0], seed, tool, drv, runner, j[2], j[1]) for j in jobs]
         for f in futs:
             results.append(f.result())
+        vg = vg.result() if vg is not None else None
+    if vg is not None and not vg[0]:
+        rec = dict(vg[1])
+        rec.update({"kind": "impl-counterexample", "valgrind": vg[2]})
+        res.violation("makeexoquad-symmetric-uninitialised",
+                      "`tasgrid -makeexoquad` without -symmetric passes the never-initialised member is_symmetric_weight_function to "
+                      "getExoticQuadrature (valgrind: conditional jump depends on uninitialised value); the library default is false", rec)
 
     # report
     totals = {}
@@ -1116,12 +1198,12 @@ def run(res, tier, seed, replay_obj=None):
             i, what, detail = rr["div"]
             meta = rr["inv_meta"][i] if rr["inv_meta"] and i < len(rr["inv_meta"]) else {"cmd": "?", "argv": [], "err": "", "rc": None}
             inv = {"cmd": meta["cmd"], "argv": meta["argv"], "err": meta["err"], "rc": meta["rc"], "zero_cols": rr.get("zero_cols")}
-            key = known_key(set(rr["tags"]), inv, what, rr["api_status"].get(i)) or ("%s/%s" % (meta["cmd"], what))
+            key = known_key(set(rr["tags"]), inv, what, rr["api_status"].get(i), tables) or ("%s/%s" % (meta["cmd"], what))
             rec = dict(rr["record"] or {})
             rec.update({"kind": "impl-counterexample", "first_divergence": i, "what": what, "detail": detail,
                         "invocation": " ".join(meta["argv"]), "api_status": rr["api_status"].get(i), "script_id": str(rr["idx"])})
             res.violation(key, "invocation %d `tasgrid %s`: %s" % (i, " ".join(meta["argv"])[:200], detail), rec)
-    nalias = alias_checks(res, tool, tables)
+    nalias = alias_checks(res, tool, tables) if (replay_obj is None or alias_only) else 0
     if tables.get("const_list_deviations") and not any(k in ("using-construct-rewrites-gridfile",) for k, _ in res.known_hit) \
             and not any(v["key"] == "using-construct-rewrites-gridfile" for v in res.violations):
         for c in tables["const_list_deviations"]:
@@ -1129,6 +1211,9 @@ def run(res, tier, seed, replay_obj=None):
                 res.violation("const-list/" + c, "command %s: membership in constcoms differs from the documentation" % c,
                               {"kind": "proof-break", "theorem": "c16_const_list_deviations_known"}, no_input=True)
 
+    if stale_model and not res.violations:
+        res.violation("extraction", "the regenerated tables do not fit Model/Cli.v any more (model does not compile): " + elog[-400:],
+                      {"kind": "proof-break", "log": elog[-3000:]}, no_input=True)
     if not tr_ok and not res.violations:
         res.violation("translator", "translator/clitable.py rejects the source: " + tr_msg[:600],
                       {"kind": "proof-break", "translator": tr_msg}, no_input=True)
@@ -1175,7 +1260,8 @@ def run(res, tier, seed, replay_obj=None):
         "commands_exercised": "%d/%d" % (len(ran_cmds), int(tables.get("commands", 0))),
         "commands_not_exercised": sorted(set(first_switch[c] for c in exercised_table if c in first_switch) - {first_switch.get(c, c) for c in ran_cmds}),
         "switch_strings_exercised": "%d/%d" % (len(ran_switches & set(lookup)), len(lookup)),
-        "alias_direct_checks": nalias, "translator_ok": tr_ok,
+        "alias_direct_checks": nalias, "translator_ok": tr_ok, "stale_model_used": stale_model, "valgrind_checks": 0 if vg is None else 1,
+        "slowest_scripts": sorted(((rr["wall"], str(rr["idx"]), rr["text"].split("\n")[-1][:120]) for rr in results), reverse=True)[:3],
     })
     res.assumptions = [
         "the documented plan of each command (Model/Cli.v) is the specification; where the tool deviates the check reports a finding",
@@ -1193,3 +1279,13 @@ def replay(path):
     else:
         run(res, "quick", rp.get("seed", 1))
     return res.finish()
+
+
+if __name__ == "__main__":
+    import sys
+    if sys.argv[1:] == ["--export-corpus"]:
+        os.makedirs(CORPUS, exist_ok=True)
+        for name, invs, files, _ in witness_scripts():
+            with open(os.path.join(CORPUS, name + ".json"), "w") as fh:
+                json.dump({"property": PID, "kind": "impl-counterexample", "script": invs, "files": files}, fh, indent=1)
+        print("wrote", len(witness_scripts()), "files to", CORPUS)
